@@ -510,6 +510,7 @@ def main():
         log('unknown or unclaimed property', prop)
         return 2
     cfg = P.PROPS[prop]
+    os.environ['VERIF_TIER'] = args.tier
     seed = int(os.environ.get('VERIF_SEED', '0') or 0)
     t0 = time.time()
     if args.replay:
